@@ -47,8 +47,12 @@ func newUpdateInterceptor(filter updateFilter) *updateInterceptor {
 }
 
 func (ui *updateInterceptor) HandleUpdate(u ChannelUpdate, r *UpdateResponder) {
-	ui.update <- updateAndResponder{u, r}
-	<-ui.response
+	select {
+	case ui.update <- updateAndResponder{u, r}:
+		<-ui.response
+	case <-ui.response:
+		// The interceptor was released while nobody awaited the update.
+	}
 }
 
 func (ui *updateInterceptor) Accept(ctx context.Context) error {
